@@ -57,7 +57,7 @@ static void one_cycle(long cyc) {
   cur_nw = pick_nw(cyc);
   char buf[32]; snprintf(buf, sizeof buf, "%d", cur_nw);
   int spawned0 = mvsim_n_workers_spawned();
-  switch (h % 4) {
+  switch (h % 5) {
     case 0: {   /* explicit, through a global attribute object */
       unsetenv("MYTH_NUM_WORKERS");
       myth_globalattr_t ga; myth_globalattr_init(&ga);
@@ -76,6 +76,24 @@ static void one_cycle(long cyc) {
       myth_globalattr_set_n_workers(0, (size_t)cur_nw);
       (void)myth_get_num_workers();
       break;
+    case 4: {   /* the DEFAULT global attributes (attr == NULL), set one by one in a seeded order while the environment says
+                   something else: the last word of every setter counts, and no setter may disturb another one's value */
+      snprintf(buf, sizeof buf, "%d", cur_nw < 64 ? cur_nw + 1 : cur_nw - 1);
+      setenv("MYTH_NUM_WORKERS", buf, 1);
+      for (int k = 0; k < 4; k++) {
+        switch ((int)((h >> (8 + 2 * k)) % 4 + k) % 4) {
+          case 0: myth_globalattr_set_n_workers(0, (size_t)cur_nw); break;
+          case 1: myth_globalattr_set_stacksize(0, (h >> 20) & 1 ? 32768 : 65536); break;
+          case 2: myth_globalattr_set_bind_workers(0, 0); break;
+          default: { size_t g = 0; myth_globalattr_get_guardsize(0, &g); myth_globalattr_set_guardsize(0, g); break; }
+        }
+      }
+      myth_globalattr_set_n_workers(0, (size_t)cur_nw);          /* (the order above may have put it first or last; make sure it was said) */
+      if ((h >> 30) & 1) myth_globalattr_set_stacksize(0, 49152);  /* ... and another setter after it */
+      myth_globalattr_set_bind_workers(0, 0);
+      if ((h >> 31) & 1) myth_init(); else (void)myth_get_num_workers();
+      break;
+    }
     default:    /* implicit on first use through thread creation */
       setenv("MYTH_NUM_WORKERS", buf, 1);
       myth_globalattr_set_n_workers(0, (size_t)cur_nw);
